@@ -128,10 +128,13 @@ class World:
 LETTERS = ["min0", "min1", "max0", "max1", "min2", "min3", "max3", "min4", "min5", "max6", "subj0", "subj1", "subjL", "subjLz", "subj5", "subjBad",
            "minBad", "maxBad", "ubx", "lby", "ubxN", "uby", "uba0", "lbz0", "read",
            "s:auto", "s:SLSQP", "s:trust-constr", "s:L-BFGS-B", "s:Nelder-Mead", "s:Powell", "s:linprog", "s:highs-ds"]
-NO_MODEL_OP = {"subjBad", "minBad", "maxBad"}        # rejected calls: the problem must be exactly as before (no model operation)
+REJECTED = {"subjBad", "minBad", "maxBad"}           # rejected calls: the model's ORejected (state, store and flags unchanged)
+NO_MODEL_OP = set()
 
 
 def op_term(w: World, L: str, toggles):
+    if L in REJECTED:
+        return "ORejected"
     if L.startswith("min"):
         return f"(OMin {w.obj_terms[int(L[3])]})"
     if L.startswith("max"):
@@ -160,6 +163,8 @@ def op_term(w: World, L: str, toggles):
         return f'(OSetUb "y" (Some {ser.q(toggles["uby"])}))'
     if L == "read":
         return "OReadVars"
+    if L in REJECTED:
+        return "ORejected"
     return f"(OSolve {ser.s(L[2:])})"
 
 
@@ -419,14 +424,18 @@ def run(rep: vk.Report):
     solves = [L for L in LETTERS if L.startswith("s:")]
     forced_world = {}
     bound_edits = {"ubx", "lby", "ubxN", "uby", "uba0", "lbz0"}
-    for setup in ("min0", "max1", "min3"):
-        for sa, ed, sb in itertools.product(solves, edits, solves):
+    core_solves = ["s:auto", "s:SLSQP", "s:trust-constr", "s:linprog"]
+    setups = [(("min0",), solves), (("max1",), solves), (("min3",), solves),
+              # the same with a CONSTRAINT in place before the first solve (compiled constraint callables exist when the edit comes)
+              (("min2", "subj5"), core_solves), (("min0", "subj0"), core_solves), (("max1", "subjL"), core_solves), (("min3", "subj5", "subjLz"), core_solves)]
+    for setup, sv in setups:
+        for sa, ed, sb in itertools.product(sv, edits, sv):
             if ed in bound_edits:
                 for wv in range(4):                      # a bound edit between two solves: in every world (what "all free" means differs)
                     forced_world[len(seqs)] = wv
-                    seqs.append((setup, sa, ed, sb))
+                    seqs.append(setup + (sa, ed, sb))
             else:
-                seqs.append((setup, sa, ed, sb))
+                seqs.append(setup + (sa, ed, sb))
     n_long = 400 if rep.tier == "quick" else 20000
     for _ in range(n_long):
         seqs.append(tuple(rng.choice(LETTERS) for _ in range(rng.randint(4, 8))))
@@ -436,7 +445,7 @@ def run(rep: vk.Report):
         variant = forced_world.get(k, k % 4)
         case, pyseen = run_sequence(s, variant)
         for st_ in pyseen:
-            if st_.get("letter") == "subjBad" and bad_reports < 3:
+            if st_.get("letter") == "subjBad" and "problem" in st_ and bad_reports < 3:
                 bad_reports += 1
                 rep.violation({"kind": "atomicity", "obligation": "a rejected subject_to(list) / minimize / maximize call leaves the problem as it was",
                                "witness": {"sequence": list(s), "world": variant, "problem": st_["problem"]}}, concrete=True)
